@@ -48,7 +48,9 @@ impl QuotedTripleStore {
             return id;
         }
         let id = self.next_qt_id;
-        self.next_qt_id += 1;
+        self.next_qt_id = id
+            .checked_add(1)
+            .expect("Quoted triple ID space exhausted: next_qt_id would wrap into the plain term ID range");
         self.id_to_components.insert(id, key);
         self.components_to_id.insert(key, id);
         id
